@@ -354,6 +354,8 @@ func endsWithFuncOrChanType(expr Expression) bool {
 		return endsWithFuncOrChanType(e.ElementType)
 	case *ArrayType:
 		return endsWithFuncOrChanType(e.ElementType)
+	case *UnaryOperator:
+		return e.Op == OperatorPointer && endsWithFuncOrChanType(e.Expr)
 	}
 	return false
 }
